@@ -7,6 +7,10 @@ From Verif.Gen Require Import Flags_gen.
 Import ListNotations.
 Open Scope N_scope.
 
+(* a byte string written as its length and one big-endian hexadecimal numeral (fast to parse) *)
+Definition hexb_step (p : bytes * N) : bytes * N := (N.land (snd p) 255 :: fst p, N.shiftr (snd p) 8).
+Definition B (len n : N) : bytes := fst (N.iter len hexb_step ([], n)).
+
 Definition fs_of (m : list (bytes * bytes)) (p : bytes) : option bytes :=
   match find (fun kv => bytes_eqb (fst kv) p) m with Some kv => Some (snd kv) | None => None end.
 
@@ -32,6 +36,8 @@ Definition vals_agree (m o : named) : bool :=
 
 (* ---- configure() cases *)
 Definition ccase := (list bytes * list (bytes * bytes) * observed)%type.   (* argv, files, observation *)
+(* the same with what the generator intended: monitored?, must be accepted?, command line, file *)
+Definition xcase := (ccase * (bool * bool * intended * intended))%type.
 
 Definition corr_configure (platform : bytes) (c : ccase) : bool :=
   let '(args, files, obs) := c in
@@ -69,10 +75,18 @@ Definition monitor_detail (c : mcase) : list bytes :=
   | OOther => [[33]]
   end.
 
-Fixpoint detail_idx (l : list mcase) (i : nat) : list (nat * list bytes) :=
+Definition mcase_of (x : xcase) : option mcase :=
+  let '((_, _, obs), (monitored, accept, cmd, file)) := x in
+  if monitored then Some (accept, cmd, file, obs) else None.
+
+Fixpoint detail_idx (l : list xcase) (i : nat) : list (nat * list bytes) :=
   match l with
   | [] => []
-  | c :: r => match monitor_detail c with [] => detail_idx r (S i) | d => (i, d) :: detail_idx r (S i) end
+  | x :: r =>
+    match mcase_of x with
+    | None => detail_idx r (S i)
+    | Some c => match monitor_detail c with [] => detail_idx r (S i) | d => (i, d) :: detail_idx r (S i) end
+    end
   end.
 
 (* ---- config.ParseString cases: text, whether err == nil, the struct afterwards *)
